@@ -1067,13 +1067,21 @@ func (c *CaseA) again(f fetched, m manifest.Manifest, s snap, ev *evid.Collector
 				continue
 			}
 			ev.Class(lbl + ":set")
-			// (a) the bytes hash to the digest in the reference (the registry serves the same bytes for the tag)
+			// (a) the bytes hash to the digest in the reference
 			s2 := observe(m2)
 			doc, ok, _ := named(s2.MT, s2.Raw)
 			if !ok {
 				continue
 			}
-			if got := hashOf(alg, doc); got != s.Digest || (st.Op != "get-tag" && s2.Digest != s.Digest) {
+			if st.Op == "get-tag" {
+				// a tag names whatever the registry serves for it now (a pushed edit, a wrapper index): only
+				// clause (b) above and the result's own equation apply
+				if a2, ok := digestAlg(s2.Digest); ok && hashOf(a2, doc) != s2.Digest {
+					return []*evid.Violation{evid.V("refetch-by-tag-digest-not-hash-of-bytes:"+cacheLbl, "after %s: %s reports %s, its bytes hash to %s", strings.Join(trace, ", "), rr.CommonName(), s2.Digest, hashOf(a2, doc))}
+				}
+				continue
+			}
+			if got := hashOf(alg, doc); got != s.Digest || s2.Digest != s.Digest {
 				sig := "refetch-returns-other-bytes:" + st.Op + ":" + cacheLbl
 				if c.Cache && cached {
 					sig = "reg-cache-returns-caller-edited-manifest"
